@@ -5,7 +5,7 @@ PROP = dict(
     lean_module="AbraProofs.Properties.C30",
     required_theorems=["C30_int_literal_roundtrip", "C30_int_literal_value", "C30_int_literal_out_of_range",
                        "C30_float_literal_token", "C30_escape_roundtrip", "C30_scan_finds_close",
-                       "C30_quoted_roundtrip", "C30_strip_spec_partial"],
+                       "C30_quoted_roundtrip", "C30_strip_spec_partial", "C30_strip_spec"],
     harness_bin="c30",
     # the lexer's answer on malformed literal text (bad escapes, unterminated literals) is more than the
     # property fixes; a violation of the property is found by the harness's own oracle (lexer payload and
@@ -40,11 +40,11 @@ PROP = dict(
                "parser's folded parse gives that integer (MIN via negation), out of range => diagnostic, never a wrapped value; "
                "processEscapes(escape q s) = s for all Unicode strings and all quote styles; the scan for the closing quote finds "
                "the printer's quote, hence one-line literals round-trip; indentation stripping removes exactly the common "
-               "indentation (stated on the collected lines). Tied to /repo on every run by lexing, parsing and running generated "
+               "indentation, from the source text of a block-form literal. Tied to /repo on every run by lexing, parsing and running generated "
                "literals with the real code and diffing token payloads/spans with the model.",
     level_note="Floats: only the token payload is proved; the value is parse::<f64> (trusted, compared by bits on every run). "
-               "C30_strip_spec_partial starts from the collected lines, not from the source text (OPEN statement in the file). "
-               "Until the fixes D40 and D42 land in /repo the check reports the blank-tail and tab-indented layouts as violations.",
+               "C30_strip_spec covers the block layout (opener, line break, indented lines, closer on its own line); the opener-residue "
+               "and inline-closer layouts are covered by the correspondence only. The model follows /repo after the fixes of D40 and D42.",
     technique="Lean 4 theorems (induction over strings/digit lists, core Nat.toDigits lemmas) over a hand-written lexer model + differential correspondence against the real lexer, parser and VM",
     timeout=3000,
 )
